@@ -272,14 +272,18 @@ def parse_field_value(
             field[0],
             context,
         )
-    # should be unreachable. Every code path to here tests types
-    raise AssertionError(
-        f"Unknown field {type(field)} type for {name}. Should be a string or 'object': \n {field} "
+    raise exc.DataGenSyntaxError(
+        f"Unknown field {type(field)} type for {name}. Should be a string or 'object': \n {field} ",
+        **context.line_num(),
     )
 
 
 def parse_field(name: str, definition, context: ParseContext) -> FieldFactory:
-    assert name, name
+    if not isinstance(name, str) or not name:
+        raise exc.DataGenSyntaxError(
+            f"Field names should be non-empty strings, not `{name}`",
+            **context.line_num(),
+        )
     return FieldFactory(
         name,
         parse_field_value(name, definition, context),
@@ -485,6 +489,7 @@ def parse_for_each_variable_definition(
         "var",
         optional_keys={},
         mandatory_keys={
+            "var": str,
             "value": (dict, str),
         },
         context=context,
